@@ -12,8 +12,9 @@ CONTRACTS = [
         types={"self": "indicator"},
         ghost={"k": "int"},
         requires={"prefix-complete": PC},
-        # resumes at the first candle without the reading (candle 0 alone is recomputed: the scan stops at 1)
-        returns="0 if k <= 1 else k",
+        # resumes exactly at the first candle without the reading (C15: after a trim that leaves one calculated candle in
+        # front of the new ones, that candle - and the helper series on it - must not be recomputed from less history)
+        returns="k",
         props=["C01", "C07", "C14"],
         use_at_calls=False, pure=True,
     ),
@@ -26,7 +27,7 @@ LOOPS = {
     }),
 }
 
-R = "(0 if k <= 1 else k)"
+R = "k"
 
 
 def _abstract_step(ex, st, args, kwargs, node):
